@@ -8,6 +8,7 @@ import Chrono.Extracted.WdConv
 
 namespace Chrono.M
 
+namespace WdFmt
 /-- alignment flag of a format spec; none written = `left` for `Formatter::pad` -/
 inductive Align where
   | left | right | center
@@ -34,10 +35,11 @@ def fmtFill (t : List Nat) (width : Option Nat) (align : Align) (fill : Nat) : L
 the precision cuts, then the width fills up -/
 def fmtPad (s : List Nat) (width prec : Option Nat) (align : Align) (fill : Nat) : List Nat :=
   fmtFill (fmtCut s prec) width align fill
+end WdFmt
 
 /-- `Display for Weekday` under `{:fill align width .prec}`: `f.pad(name)` -/
-def Weekday.display_fmt (w : Weekday) (width prec : Option Nat) (align : Align) (fill : Nat) : List Nat :=
-  fmtPad w.display width prec align fill
+def Weekday.display_fmt (w : Weekday) (width prec : Option Nat) (align : WdFmt.Align) (fill : Nat) : List Nat :=
+  WdFmt.fmtPad w.display width prec align fill
 
 namespace WeekdaySet
 
